@@ -53,10 +53,14 @@ def run_case(ctx):
     common.prelude(ctx)
     m = world.gen_world(src, scale=("hugebox", "manyboxes", "farcorner", "manyfields"), lowprec_ok=True)
     req, names = draw_selection(src, m)
+    os.makedirs(os.path.join(ctx.scratch, "work"))
+    # (in half of the history cases the earlier run wrote to the very output directory used below)
+    warm_out = [os.path.join(ctx.scratch, "work", "out_plt") if src.flag("hist.same_output") else
+                os.path.join(ctx.scratch, "warm_out")]
 
     def warm(p):
         from amr_kitchen.colander.colander import Colander
-        run_tool(ctx, lambda: Colander(plotfile=p, output=os.path.join(ctx.scratch, "warm_out"), variables=list(req)).strain())
+        run_tool(ctx, lambda: Colander(plotfile=p, output=warm_out[0], variables=list(req)).strain())
     path_arg, hcwd, path, hmode = common.history_materialise(ctx, m, warm)
     limit = None
     if src.flag("limit"):
@@ -65,7 +69,6 @@ def run_case(ctx):
     rel_out = bool(src.draw("rel_out", 0, 1))
     rel_in = bool(src.draw("rel_in", 0, 1))
     work = os.path.join(ctx.scratch, "work")
-    os.makedirs(work)
     out_abs = os.path.join(work, "out_plt")
     out_arg = "out_plt" if rel_out else out_abs
     in_arg = os.path.relpath(path, work) if rel_in else path
